@@ -143,3 +143,19 @@ Example ex_sizes :
   (crs_enc_share_size 10 3, crs_enc_last_share_padding 10 3, crs_dec_share_size 10 3,
    next_multiple 10 3, pad_size 10 3, div_ceil 12 3) = (4, 2, 4, 12, 2, 4).
 Proof. vm_compute. reflexivity. Qed.
+
+(* Companion result (mathcomp, Proofs/RS.v; not used by the harness): a Reed-Solomon style
+   evaluation code over ANY field is MDS -- for messages m1 m2 of k symbols (coefficient lists of
+   polynomials of degree < k) and any k pairwise distinct evaluation points among the code's
+   points, equal symbols at those k points imply equal message polynomials.  This gives a
+   non-trivial family of instances of the any-k-of-N hypothesis of wrapper_roundtrip_any_k
+   (zfec's code is of this family over GF(2^8); that zfec implements it correctly stays a
+   hypothesis validated by the driver).  Statement (Proofs/RS.v):
+     forall (F : fieldType) k (m1 m2 points chosen : seq F),
+       size m1 = k -> size m2 = k -> uniq chosen -> size chosen = k ->
+       {subset chosen <= points} ->
+       {in chosen, forall x, (Poly m1).[x] = (Poly m2).[x]} -> Poly m1 = Poly m2. *)
+Require Verif.Proofs.RS.
+Theorem reed_solomon_evaluation_code_is_mds : Verif.Proofs.RS.rs_mds_statement.
+Proof. exact Verif.Proofs.RS.rs_mds. Qed.
+Print Assumptions reed_solomon_evaluation_code_is_mds.
